@@ -224,6 +224,10 @@ func (e *Enc) enterLoop(fr *Frame, li *loopInfo, pre *State) *State {
 		head.cells[a] = v
 	}
 	// validity of havocked cells is assumed after next is havocked
+	direct := map[string]bool{}
+	for n := range mod.heaps {
+		direct[n] = true
+	}
 	if mod.allHeaps {
 		// lock ownership is only changed by the sync primitives (listed explicitly in modifies clauses)
 		for n := range e.base {
@@ -267,6 +271,10 @@ func (e *Enc) enterLoop(fr *Frame, li *loopInfo, pre *State) *State {
 		}
 		head.heaps[n] = e.fresh(n+"_lh", old.S)
 	}
+	if mod.allHeaps && len(e.preserved) > 0 {
+		// what unbounded-frame calls cannot reach, and the body does not write itself, survives the loop
+		e.applyPreserved(pre, head, direct)
+	}
 	if mod.allocs || mod.allHeaps {
 		nn := e.fresh("next_lh", SInt)
 		e.fact(Val{app("<=", pre.next.T, nn.T), SBool})
@@ -275,6 +283,12 @@ func (e *Enc) enterLoop(fr *Frame, li *loopInfo, pre *State) *State {
 	for it := range mod.iters {
 		if old, ok := pre.iters[it]; ok {
 			head.iters[it] = e.fresh("it_lh", old.S)
+		}
+		if _, ok := pre.iterN[it]; ok {
+			if head.iterN == nil {
+				head.iterN = map[ssa.Value]Val{}
+			}
+			head.iterN[it] = e.fresh("itn_lh", BVSort(64))
 		}
 	}
 	for a := range mod.cells {
@@ -698,7 +712,21 @@ func (e *Enc) instr(fr *Frame, st *State, in ssa.Instruction) {
 		st.defers = nil
 		for i := len(ds) - 1; i >= 0; i-- {
 			d := ds[i]
-			e.callWithArgs(fr, st, d.instr.Common(), d.instr, d.instr.Pos(), d.fnVal, d.args)
+			if d.guard.T == "" || d.guard.T == "true" {
+				e.callWithArgs(fr, st, d.instr.Common(), d.instr, d.instr.Pos(), d.fnVal, d.args)
+				continue
+			}
+			// conditionally deferred call: run it on a copy under its guard, then merge
+			yes := st.clone()
+			yes.reach = e.name("r_defer", And(st.reach, d.guard))
+			e.callWithArgs(fr, yes, d.instr.Common(), d.instr, d.instr.Pos(), d.fnVal, d.args)
+			no := st.clone()
+			no.reach = e.name("r_nodefer", And(st.reach, Not(d.guard)))
+			m := e.merge([]edgeState{{cond: yes.reach, st: yes}, {cond: no.reach, st: no}}, "defer")
+			reach := st.reach
+			*st = *m
+			st.reach = reach
+			st.defers = nil
 		}
 	case *ssa.Go:
 		e.goStmt(fr, st, in)
